@@ -40,6 +40,8 @@ pub enum CStep {
 
 #[derive(Debug, Clone)]
 pub struct CycCase {
+    /// strict: known finding KF3 is not tolerated (used by its witness replay)
+    pub strict: bool,
     pub prog: Program,
     pub steps: Vec<CStep>,
     pub tape: Vec<u8>,
@@ -211,7 +213,7 @@ impl CycCase {
                 ));
             }
         }
-        Self { prog: p, steps, tape: t.rest().to_vec() }
+        Self { strict: false, prog: p, steps, tape: t.rest().to_vec() }
     }
 
     pub fn pretty(&self) -> String {
@@ -225,6 +227,7 @@ impl CycCase {
 
     pub fn to_json(&self) -> serde_json::Value {
         serde_json::json!({
+            "strict": self.strict,
             "program": program_to_json(&self.prog),
             "tape": self.tape,
             "steps": self.steps.iter().map(|s| match s {
@@ -236,6 +239,7 @@ impl CycCase {
 
     pub fn from_json(v: &serde_json::Value) -> Self {
         Self {
+            strict: v["strict"].as_bool().unwrap_or(false),
             prog: program_from_json(&v["program"]),
             tape: v["tape"].as_array().unwrap().iter().map(|x| x.as_u64().unwrap() as u8).collect(),
             steps: v["steps"].as_array().unwrap().iter().map(|s| {
@@ -448,7 +452,8 @@ pub async fn run_cyc(
                             ));
                             return out;
                         }
-                        if !on_cycle(&graph, y)
+                        if !case.strict
+                            && !on_cycle(&graph, y)
                             && last_index.get(&y).is_some_and(|i| *i < log_len_at_round_start)
                         {
                             // known finding KF3: the default was assigned in an
